@@ -101,6 +101,7 @@ def run(fx, rep, tier):
     cone, sites = run_cone(fx, rep, "C04-CONE", [search.name, tsnew.name], stop, 200, floors=FLOORS)
     rule_evalop(fx, rep, cone)
     pC09.rule_fallback(fx, rep) if False else rule_ret(fx, rep)
+    rule_root(fx, rep)
 
 
 # ---- C04-EVALOP ------------------------------------------------------------------------------
@@ -295,11 +296,37 @@ def rule_ret(fx, rep):
     rep.rule("C04-RET", r["instances"], r["floor"], r["status"] == "ok", "search returns pv.first() or the panic move")
 
 
+def rule_root(fx, rep):
+    """The class `pv-first` (the root line of a completed iteration is non-empty, so `pv.first().unwrap()` cannot fail) rests on
+    the root node always searching its moves: that is C08-ROOTRET, re-reported here as the premise of that belief (seed C04-5a:
+    a draw-by-material return taken at the root too leaves the line empty and the unwrap panics)."""
+    import core
+    import pC08
+    sub = type(rep)(rep.prop, rep.tier)
+    q = core.QUIET
+    core.QUIET = True
+    try:
+        pC08.rule_rootret(fx, sub, fx.one("search::negamax::negamax"))
+    finally:
+        core.QUIET = q
+    for v in sub.violations:
+        rep.violation("C04-ROOT", v["key"].replace("C08-ROOTRET", "C04-ROOT"), v["msg"] + " - the completed iteration then has an empty line and `pv.first().unwrap()` panics: no bestmove", v["site"])
+    for x in sub.notes:
+        rep.notes.append(x.replace("C08-ROOTRET", "C04-ROOT"))
+    rep.obligations += sub.obligations
+    rep.discharged += sub.discharged
+    r = sub.rules[-1]
+    rep.rule("C04-ROOT", r["instances"], r["floor"], r["status"] == "ok", "the root node never returns before searching a move (shared with C08-ROOTRET)")
+
+
 NG = "src/engine/search/negamax.rs"
 AS = "src/engine/search/aspiration.rs"
 TT = "src/engine/transposition_table.rs"
 SM = "src/engine/search/mod.rs"
 MUTANTS = [
+    {"name": "draw by material returned at the root too (seed C04-5a)", "expect": "C04-ROOT",
+     "edits": [(NG, "    if !is_root\n        && (game.is_repeated_position()\n            || game.is_stalemate_by_fifty_move_rule()\n            || game.is_stalemate_by_insufficient_material())\n    {\n        return Ok(Eval::DRAW);\n    }",
+                "    if game.is_stalemate_by_insufficient_material()\n        || (!is_root && (game.is_repeated_position() || game.is_stalemate_by_fifty_move_rule()))\n    {\n        return Ok(Eval::DRAW);\n    }")]},
     {"name": "score array smaller than the move list (seed C04-3)", "expect": "C04-CONE/engine::search::move_picker::MovePicker",
      "edits": [("src/engine/search/move_picker.rs", "const MAX_MOVES: usize = u8::MAX as usize;", "const MAX_MOVES: usize = 128;")]},
     {"name": "per-ply tables and lines shorter than the maximum depth", "expect": "C04-CONE",
